@@ -115,3 +115,21 @@ add("C17", "E2 callspace", "exploration",
     "Every decorated function of the grammar (k<=3 jax.Array parameters from the C02 dim strings, return annotations incl. symbolic, PyTree[...,'T'] / '?' parameters; typeguard and beartype) is traced under every catalogue transformation (eval_shape, make_jaxpr, jit, vmap with every valid in_axes, grad, jit∘vmap, vmap∘jit, grad∘jit, vmap∘vmap) and must agree with its own eager call on the per-example shapes and dtypes in verdict, exception class and body-run count; three eager fillings (zeros, arange, NaN) must agree; no Concretization / TracerBoolConversion / TracerArrayConversion error anywhere in the exception chain.",
     "Rank <=3, sizes <=3, float32/int32, CPU, tracing only (nothing compiled). Trusts JAX's tracing semantics; the harness's per-example-shape computation is cross-checked against what the body saw in every trace.",
     "DESIGN.md §6 C17")
+
+ENGINES[2]["serves_properties"] += ["C07"]
+ENGINES[3]["serves_properties"] += ["C11", "C18"]
+add("C07", "E2 callspace", "exploration",
+    "bounded-exhaustive generated programs x call lists on the real jaxtyped, body-side identity recorder, differential against the undecorated callable",
+    "Every signature shape with <=3 (quick) / <=4 (thorough) parameters over the five parameter kinds, defaults, annotated/unannotated, every tuple of distinct names from an 11-name alphabet colliding with the wrapper's generated names (T0, default0, ret0, args, kwargs, fn, memos, bound, the function's own name), callable kinds def / lambda / async def / generator, descriptor kinds plain / method / classmethod / staticmethod / property, both typecheckers, is decorated for real and called with every binding recipe (positional / keyword / default / extra *args / **kwargs incl. the wrapper's own output name), five non-binding lists and ill-typed lists; body execution count, argument / result / exception identity, TypeError on non-binding lists, zero executions on ill-typed lists, __name__/__qualname__/__doc__/__module__/signature/descriptor kind are compared with the undecorated callable.",
+    "Trusted: the recorder body and source generator (a misbehaving reference raises HarnessError); typeguard 2.13.3 / beartype 0.22.9; names outside the alphabet and arity > 4 are out of bounds; exception type on ill-typed arguments is don't-care (all were TypeCheckError).",
+    "DESIGN.md §6 C07")
+add("C11", "E4 histories", "model_checking",
+    "explicit-state BFS over install / import / uninstall histories on the real import machinery with deduplication on the observed world",
+    "Every history within the stated bounds (quick: length <=4, <=2 active hooks, hook name sets over {foo, foo.a, foo.sub, fo, bar.baz}, checkers spy A / spy B / None / old tuple form, via API / with-block / pytest option / IPython magic) is executed on the real sys.meta_path and sys.modules over a generated package forest with string-prefix lookalikes (foobar, foo_bar, fo); states are deduplicated on finder order + each loaded module's observed instrumentation tag; every transition is compared with the statement's oracle (instrumented iff some active hook name equals the module name or is a dotted prefix of it; checker of a covering hook; nothing new after uninstall; already instrumented functions keep their checker), observed through the spy log and through ill-typed calls.",
+    "Trusts that an import depends only on meta_path, sys.modules and Typechecker.lookup; undo fidelity is re-checked by rebuilding every expanded state from reset; when two active hooks with different checkers cover a module either checker is accepted.",
+    "DESIGN.md §6 C11")
+add("C18", "E4 histories", "model_checking",
+    "unbounded-depth explicit-state BFS to a fixpoint over the bytecode-cache directory, cross-validated against real separate processes",
+    "State = canonical listing of every .pyc (plain or tagged name, which checker hash, built for which source version, header fresh?) plus source versions; operations = run(hooked subset, checker in {no hook, None, spy A, spy B}, import order incl. nested imports) and edit(module); every reachable state x every operation is executed as real imports in a purged interpreter until no new state appears; all edges of depth <=2 and every violating history are re-run as real separate interpreters and must agree on state and observation. Oracle per run: each loaded module is instrumented iff hooked in this run, with this run's checker, from the current source.",
+    "State abstraction merges stale-header files and abstracts versions to current/old (CPython validates the header before using cached code); subprocesses write bytecode only around the hooked imports with jax masked so nothing is written under the repo.",
+    "DESIGN.md §6 C18")
